@@ -866,6 +866,37 @@ pub fn run(seed: u64, n: usize, part: &str, st: &mut SdStats) -> Vec<Viol> {
             ),
             &mut out,
         );
+        // large inline payloads with destructors (768 and 1536 bytes of Strings), success and error path
+        if i % 8 == 0 {
+            let row = |k: usize, n: usize| -> Vec<String> { (0..n).map(|j| format!("big{}-{}-{}", i, k, j)).collect() };
+            let one: Vec<String> = row(0, 32);
+            go(
+                de_case::<[String; 32], _, _>(
+                    "[String; 32] (768 bytes inline) from SeqDeserializer",
+                    || IntoDeserializer::<de::value::Error>::into_deserializer(one.clone()),
+                    st,
+                ),
+                &mut out,
+            );
+            let two: Vec<Vec<String>> = vec![row(1, 32), row(2, 32)];
+            go(
+                de_case::<([String; 32], [String; 32]), _, _>(
+                    "([String; 32], [String; 32]) (1536 bytes inline) from SeqDeserializer",
+                    || IntoDeserializer::<de::value::Error>::into_deserializer(two.clone()),
+                    st,
+                ),
+                &mut out,
+            );
+            let short: Vec<Vec<String>> = vec![row(3, 32), row(4, 31)];
+            go(
+                de_case::<([String; 32], [String; 32]), _, _>(
+                    "([String; 32], [String; 32]) from a sequence that is one element short (error path)",
+                    || IntoDeserializer::<de::value::Error>::into_deserializer(short.clone()),
+                    st,
+                ),
+                &mut out,
+            );
+        }
         let v: Vec<u32> = (0..rng.below(6))
             .map(|_| rng.next() as u32 % 70000)
             .collect();
